@@ -638,6 +638,11 @@ static Space make_space(const std::string& id) {
     S.solutions = {"euler_1d", "heateq_2d_steady_const"};
     S.ops = {opInit(0, "a", "euler_1d"), opInit(0, "a", "heateq_2d_steady_const"), opInit(0, "b", "euler_1d"), opInit(0, "b", "heateq_2d_steady_const"), opSel(0, "a"), opSel(0, "b"), opSet(0, "u_0", 7.5L), opEval(0, "source_rho_u", "S", 0), mk(PURGE, 0), opInit(1, "a", "euler_1d"), mk(GETNAME, 0)};
     if (g_tier) { S.ops.push_back(opSel(1, "a")); S.ops.push_back(mk(INITPARAM, 0)); }
+  } else if (id == "c12w") {
+    // a long vector replaced by another of the same length, on two handles: the caller's vector stays the caller's, each handle keeps its own
+    S.solutions = {"radiation_integrated_intensity"}; S.key_last = false;
+    for (const char* h : {"a", "b"}) { S.ops.push_back(opInit(0, h, "radiation_integrated_intensity")); S.ops.push_back(opSel(0, h)); }
+    S.ops.push_back(opSetVec(0, "vec_amp", 100)); S.ops.push_back(opSetVecRel(0, "vec_amp", 6)); S.ops.push_back(opGetVec(0, "vec_amp"));
   } else if (id == "c12r") {
     // re-initialisation of a handle whose instance owns modified vectors: two handles holding the radiation solution (heap-allocated
     // vectors per instance), every vector may be replaced, then the same handle is initialised again (same and other solution)
